@@ -43,9 +43,3 @@ Definition proved_terms (st:state) : list pat :=
 
 End G.
 
-(** the configuration of Theorem C01_soundness_partial: the real checks plus the ghost restriction *)
-Definition guards_evp : guards :=
-  {| g_ssubst_exists_capture := true; g_esubst_mu_capture := true; g_ssubst_mu_capture := true;
-     g_esubst_exists_capture := true; g_inst_constraints := true; g_gen_fresh := true;
-     g_mp_antecedent := true; g_instantiate_arity := true; g_publish_claim_eq := true;
-     g_evar_plugs_only := true |}.
